@@ -37,6 +37,7 @@ type World struct {
 	macros    map[string]*Macro
 	recvInv   map[string][]*Clause
 	commonPost map[string][]*Clause
+	typeInv   map[string][]*Clause
 	replaySolver string
 }
 
@@ -540,4 +541,102 @@ func (w *World) commonPostFor(fn *ssa.Function) []*Clause {
 		return nil
 	}
 	return cs
+}
+
+// typeInvFor: invariant clauses of a named struct type (nil if none).
+func (w *World) typeInvFor(t types.Type) []*Clause {
+	n, ok := t.(*types.Named)
+	if !ok {
+		return nil
+	}
+	return w.typeInv[typeKey(n)]
+}
+
+// checkedInContext: an anonymous function whose every use is being passed directly to a repo
+// function that checks function-valued arguments (param clauses, type-wide postconditions or
+// receiver invariants) or is inlined is verified where it is passed, under what that callee
+// promises about the arguments; it is not verified a second time as a free-standing root.
+func (w *World) checkedInContext(fn *ssa.Function) bool {
+	parent := fn.Parent()
+	if parent == nil || parent.Parent() != nil {
+		return false
+	}
+	okCall := func(call *ssa.Call, v ssa.Value) bool {
+		callee := call.Call.StaticCallee()
+		if callee == nil || !w.inRepo(callee) || call.Call.Value == v {
+			return false
+		}
+		fc := w.contracts[funcKey(callee)]
+		invs, _ := w.recvInvFor(callee)
+		has := len(w.commonPostFor(callee)) > 0 || len(invs) > 0
+		if fc != nil && fc.Flags["inline"] {
+			// the callee's body, and with it every call of the function value, runs in the
+			// parent's own symbolic execution
+			has = true
+		}
+		if fc != nil {
+			for _, cs := range fc.Params {
+				if len(cs) > 0 {
+					has = true
+				}
+			}
+		}
+		return has
+	}
+	found := false
+	for _, b := range parent.Blocks {
+		for _, ins := range b.Instrs {
+			if mc, ok := ins.(*ssa.MakeClosure); ok && mc.Fn == ssa.Value(fn) {
+				refs := mc.Referrers()
+				if refs == nil {
+					return false
+				}
+				for _, r := range *refs {
+					if _, isDbg := r.(*ssa.DebugRef); isDbg {
+						continue
+					}
+					call, ok := r.(*ssa.Call)
+					if !ok || !okCall(call, mc) {
+						return false
+					}
+					found = true
+				}
+				continue
+			}
+			// a function literal without captured variables is used as a plain value
+			uses := false
+			for _, op := range ins.Operands(nil) {
+				if op != nil && *op == ssa.Value(fn) {
+					uses = true
+				}
+			}
+			if !uses {
+				continue
+			}
+			if _, isDbg := ins.(*ssa.DebugRef); isDbg {
+				continue
+			}
+			call, ok := ins.(*ssa.Call)
+			if !ok || !okCall(call, fn) {
+				return false
+			}
+			found = true
+		}
+	}
+	return found
+}
+
+// paramInvsFor: invariants that hold of the i-th by-value parameter of fn: the type invariants
+// of its type and, for a value receiver, the receiver invariants of that type.
+func (w *World) paramInvsFor(fn *ssa.Function, i int) []*Clause {
+	if i >= len(fn.Params) {
+		return nil
+	}
+	out := w.typeInvFor(fn.Params[i].Type())
+	if i == 0 && fn.Signature.Recv() != nil {
+		if n, ok := fn.Signature.Recv().Type().(*types.Named); ok {
+			out = append(append([]*Clause{}, out...), w.recvInv[typeKey(n)]...)
+		}
+	}
+	return out
 }
